@@ -14,7 +14,7 @@ OUT = os.path.join(VERIF, "seeded")
 
 # which checks to run for a mutant of property X (own property first; related properties that share the mechanism)
 RELATED = {
-    "C01": ["C01"], "C02": ["C02"], "C03": ["C03", "C17"], "C04": ["C04", "C10", "C11"], "C05": ["C05", "C06"], "C06": ["C06", "C05"],
+    "C01": ["C01", "C02"], "C02": ["C02", "C01", "C09"], "C03": ["C03", "C17"], "C04": ["C04", "C10", "C11"], "C05": ["C05", "C06"], "C06": ["C06", "C05"],
     "C07": ["C07", "C11"], "C09": ["C09"], "C10": ["C10", "C04"], "C11": ["C11", "C07", "C03"], "C12": ["C12"], "C13": ["C13"],
     "C14": ["C14", "C12", "C07"], "C15": ["C15", "C03"], "C16": ["C16"], "C17": ["C17", "C09"],
 }
